@@ -582,9 +582,12 @@ class SR:
         self.e = e
 
     # NaN operands poison (numpy semantics), +-inf are rejected except in comparisons
+    # IEEE/numpy rules for non-finite operands: NaN poisons; +-inf resolves its sign by a decision on the symbolic operand
     def __add__(s, o):
         if _isnan(o):
             return math.nan
+        if _isinf(o):
+            return float(o)
         if isinstance(o, np.ndarray):
             return NotImplemented
         return SR(s.e + lift(o))
@@ -592,11 +595,15 @@ class SR:
     def __radd__(s, o):
         if _isnan(o):
             return math.nan
+        if _isinf(o):
+            return float(o)
         return SR(lift(o) + s.e)
 
     def __sub__(s, o):
         if _isnan(o):
             return math.nan
+        if _isinf(o):
+            return -float(o)
         if isinstance(o, np.ndarray):
             return NotImplemented
         return SR(s.e - lift(o))
@@ -604,11 +611,22 @@ class SR:
     def __rsub__(s, o):
         if _isnan(o):
             return math.nan
+        if _isinf(o):
+            return float(o)
         return SR(lift(o) - s.e)
+
+    def _times_inf(s, o):
+        if bool(s > 0):
+            return float(o)
+        if bool(s < 0):
+            return -float(o)
+        return math.nan
 
     def __mul__(s, o):
         if _isnan(o):
             return math.nan
+        if _isinf(o):
+            return s._times_inf(o)
         if isinstance(o, np.ndarray):
             return NotImplemented
         return SR(s.e * lift(o))
@@ -616,6 +634,8 @@ class SR:
     def __rmul__(s, o):
         if _isnan(o):
             return math.nan
+        if _isinf(o):
+            return s._times_inf(o)
         return SR(lift(o) * s.e)
 
     def __truediv__(s, o):
@@ -630,6 +650,11 @@ class SR:
     def __rtruediv__(s, o):
         if _isnan(o):
             return math.nan
+        if _isinf(o):
+            # inf / x: sign of x decides; inf / 0.0 is inf in IEEE arithmetic (positive zero)
+            if bool(s < 0):
+                return -float(o)
+            return float(o)
         return _div(o, s)
 
     def __pow__(s, o):
